@@ -67,7 +67,7 @@ def roles(crate):
     R.A = util.analyser(R.helpers)
     # for the Treap-level compositions, public convenience constructors of the node (new_boxed, ...) are inlined too
     rk = {x.key for x in role_fns if x is not None}
-    pubh = [m for m in util.methods_of(crate, "TreapNode") if m.key not in rk and not util.self_recursive(m) and m not in R.helpers]
+    pubh = [m for m in util.methods_of(crate, "TreapNode") + util.methods_of(crate, "Treap") if m.key not in rk and not util.self_recursive(m) and m not in R.helpers and m.name not in ("first", "last", "collect")]
     R.A2 = util.analyser(R.helpers + pubh)
     return R
 
